@@ -66,18 +66,18 @@ def createDrawdowns (cum : List α) : List α × α × Nat :=
 
 def popStd [TransOps α] (l : List α) : α := TransOps.sqrt (popVar l)
 
-/-- `create_cagr(cum_returns, periods)` -/
-def createCagr [TransOps α] (cum : List α) (periods : Nat) : α :=
-  let years := ofInt cum.length / ofInt periods
+/-- `create_cagr(cum_returns, periods)`; `periods` is any number (252, 252·6.5, 365.25, …), used as it is -/
+def createCagr [TransOps α] (cum : List α) (periods : α) : α :=
+  let years := ofInt cum.length / periods
   TransOps.pow (cum.getLastD zero) (one / years) - one
 
 /-- `create_sharpe_ratio(returns, periods)` -/
-def createSharpe [TransOps α] (rs : List α) (periods : Nat) : α :=
-  TransOps.sqrt (ofInt periods) * meanOf rs / popStd rs
+def createSharpe [TransOps α] (rs : List α) (periods : α) : α :=
+  TransOps.sqrt periods * meanOf rs / popStd rs
 
 /-- `create_sortino_ratio(returns, periods)` -/
-def createSortino [TransOps α] (rs : List α) (periods : Nat) : α :=
-  TransOps.sqrt (ofInt periods) * meanOf rs / popStd (rs.filter fun r => lt r zero)
+def createSortino [TransOps α] (rs : List α) (periods : α) : α :=
+  TransOps.sqrt periods * meanOf rs / popStd (rs.filter fun r => lt r zero)
 
 end
 
